@@ -36,6 +36,7 @@ TECHNIQUE = "Hypothesis round-trip / idempotence testing of parse and render ove
 #: thorough tier: seed-dependent tasks are repeated under this many derived seeds (run.py); the listed task functions enumerate fixed domains
 THOROUGH_REPS = 6
 DETERMINISTIC_FNS = ('t_small_fields', 't_inspect_bank')
+RULE += " identify / verify / needs_update must read the str and the ASCII-bytes form of a produced hash alike."
 
 HEXCASE = {"hex_md4", "hex_md5", "hex_sha1", "hex_sha256", "hex_sha512", "nthash", "lmhash", "msdcc", "msdcc2", "mysql323", "mysql41",
            "mssql2000", "mssql2005", "oracle10", "oracle11", "postgres_md5", "django_salted_md5", "django_salted_sha1", "grub_pbkdf2_sha512",
